@@ -21,6 +21,15 @@ CHECKS = {
  "C10": (True, "runtime monitor: rules and simplifiers on diagrams with variable parities, compared under ALL assignments by harness-side instantiation + independent evaluator; measurement circuits vs independent simulator with projected outcomes",
          "Exploration: diagrams whose spiders carry XORs over {b0,b1,b2,b5} (variable 0 included on purpose); every accepted rule application and all 13 simplifiers are checked under every assignment (2^n, n<=5) in both backends; circuits with measure_d/measure_r (explicit and fresh variables) are translated in 3 modes x 2 backends and compared with the projected map for every outcome.",
          "Trusted base: O1/O2/O3; instantiation reads vars(), scalar_factors(), Expr/Parity iterators (constant bit recovered through PartialEq).", "6/C10"),
+ "C15": (True, "runtime monitor: circuit adjoint / basic-gate expansion / concatenation / statistics executed on generated circuits and judged by the independent gate-matrix simulator (exact) and an own gate classifier",
+         "Exploration: every gate kind on every ordered qubit tuple up to 5 qubits (exhaustive one-gate circuits) plus random circuits with CCZ/Toffoli/parity-phase gates of every arity and rational phases; U(c;c^dagger)=I, U(to_basic_gates(c))=U(c) exactly, gate counts, all Add/AddAssign forms, reverse twice, statistics partition.",
+         "Trusted base: simulator O3; 'basic' = not CCZ/TOFF/ParityPhase acting on one or two distinct in-range qubits.", "6/C15"),
+ "C19": (True, "runtime monitor: seeded generators executed repeatedly (same seed twice, across threads) and their promises checked with the independent simulator/evaluator (hidden-shift outcome probability exactly 1, stabiliser states unit norm, gadget structure)",
+         "Exploration: 2000 (quick) instances per generator over seeds and admissible parameters; hidden shift n in {6,8,10,12} with the full exact output state; stabiliser states up to 8 qubits in both backends; Pauli-gadget structure and phases.",
+         "Trusted base: O3/O2/O1; 'at most depth gates' read literally; documented panics on inadmissible parameters are counted, not flagged.", "6/C19"),
+ "C20": (True, "runtime monitor: detection_webs run on Pauli diagrams under several vertex numberings; every returned web checked against the spider constraints, independence by own F2 elimination, completeness against an independent edge-based linear system and brute-force firing enumeration, span equality across numberings",
+         "Exploration with an exhaustive core: every diagram shape up to 4 spiders with up to 2 boundaries (22399 shapes) plus random diagrams, each under 6 numberings (boundaries first/last/interleaved/random); brute-force enumeration for <=10 spiders.",
+         "Trusted base: oracle f2small (self-tested) and the edge-based formulation; reading: own-colour Pauli of a Z spider is X (what firing it generates), of an X spider Z.", "6/C20"),
 }
 
 NOT_YET = {}
